@@ -449,8 +449,36 @@ func cloneSegs(segs [][]byte) [][]byte {
 	return out
 }
 
-// Modes of presenting the same words to the library.
-var Modes = []string{"exact", "multi", "unmarshal", "unmarshal-packed"}
+// Modes of presenting the same words to the library.  The two "slack" modes hand the library segment
+// slices with spare capacity behind them, filled with two different garbage patterns: a result that
+// differs between them (or from "exact") was derived from bytes outside the segments.
+var Modes = []string{"exact", "multi", "unmarshal", "unmarshal-packed", "slack-a", "slack-b"}
+
+// SlackArena is a read-only arena whose segments have 32 bytes of garbage capacity behind them.
+type SlackArena struct{ Segs [][]byte }
+
+func NewSlackArena(segs [][]byte, pattern []byte) *SlackArena {
+	a := &SlackArena{}
+	for _, s := range segs {
+		b := make([]byte, len(s)+32)
+		copy(b, s)
+		for i := len(s); i < len(b); i++ {
+			b[i] = pattern[(i-len(s))%len(pattern)]
+		}
+		a.Segs = append(a.Segs, b[:len(s)])
+	}
+	return a
+}
+func (a *SlackArena) NumSegments() int64 { return int64(len(a.Segs)) }
+func (a *SlackArena) Data(id capnp.SegmentID) ([]byte, error) {
+	if int(id) >= len(a.Segs) {
+		return nil, fmt.Errorf("no segment %d", id)
+	}
+	return a.Segs[id], nil
+}
+func (a *SlackArena) Allocate(sz capnp.Size, segs map[capnp.SegmentID]*capnp.Segment) (capnp.SegmentID, []byte, error) {
+	return 0, nil, fmt.Errorf("SlackArena is read-only")
+}
 
 func Message(segs [][]byte, mode string) (*capnp.Message, error) {
 	var m *capnp.Message
@@ -459,6 +487,11 @@ func Message(segs [][]byte, mode string) (*capnp.Message, error) {
 		m = &capnp.Message{Arena: &ExactArena{cloneSegs(segs)}}
 	case "multi":
 		m = &capnp.Message{Arena: capnp.MultiSegment(cloneSegs(segs))}
+	case "slack-a":
+		// behind each segment: words that read as "struct pointer, 1 data word, offset 0" / small list pointers
+		m = &capnp.Message{Arena: NewSlackArena(segs, []byte{0, 0, 0, 0, 1, 0, 0, 0, 1, 0, 0, 0, 0x0a, 0, 0, 0})}
+	case "slack-b":
+		m = &capnp.Message{Arena: NewSlackArena(segs, []byte{0xfc, 0xff, 0xff, 0xff, 0, 0, 1, 0, 0x11, 0x22, 0x33, 0x44, 0x55, 0x66, 0x77, 0x88})}
 	case "single":
 		m = &capnp.Message{Arena: capnp.SingleSegment(cloneSegs(segs)[0])}
 	case "unmarshal":
